@@ -613,6 +613,12 @@ func replayStore(bi int, beh []mbt.Step, in *mbt.Input, res *mbt.Result) {
 				return
 			}
 		case "PopTimer":
+			// which of several equally early timers fires is not the model's business:
+			// the harness's own record of pending timers decides whether one is left
+			if len(w.pending) == 0 {
+				res.Count("timer_pops_skipped", 1)
+				break
+			}
 			tm, ok := w.timers().Pop()
 			if !ok {
 				res.Driftf("b%d s%d: TimerStore.Pop returns nothing although %d timers were set and not popped (timers are C10's)", bi, si, len(w.pending))
